@@ -77,6 +77,9 @@ void harness(void)
 #if MODE == 2
 	uint8_t name[2], val[3];
 	size_t nl, vl;
+#elif MODE == 3
+	uint8_t name[2] = { 'k', 0 }, val[3];
+	size_t nl = 1, vl, nb, na;
 #endif
 	p.base = (const char *) pm_text; p.flags = MPT_PATHFLAG(HasArray);
 	p.sep = '.'; p.assign = 0;
@@ -86,6 +89,17 @@ void harness(void)
 #if MODE == 1
 	in_len = V_IN_RANGE("n", 0, N);
 	for (i = 0; i < N; i++) in[i] = V_IN_U8("in");
+#elif MODE == 3
+	/* mostly concrete option line: k <0..2 blanks> = <0..1 blank> <0..1 value char> \n */
+	nb = V_IN_RANGE("blanks_before_assign", 0, 2); na = V_IN_RANGE("blanks_after_assign", 0, 1); vl = V_IN_RANGE("vallen", 0, 1);
+	val[0] = V_IN_BOOL("vb") ? 'b' : 'a';
+	put('k');
+	if (nb > 0) put(' ');
+	if (nb > 1) put(V_IN_BOOL("tab") ? '\t' : ' ');
+	put('=');
+	if (na) put(' ');
+	if (vl) put(val[0]);
+	put('\n');
 #else
 	/* decoration: optional blank or comment line first */
 #if PRELINE == 1
@@ -126,7 +140,8 @@ void harness(void)
 	if (r == 0) V_ASSERT(in_pos == in_len, "end of input is reported only at the end of the input");
 	if (r > 0 && (r & MPT_PARSEFLAG(Data))) V_ASSERT((size_t) ctx.valid <= SBUSED - (p.off + p.len), "reported value length lies inside the stored post data");
 	if (r == MPT_PARSEFLAG(Section) || (r & MPT_PARSEFLAG(Option)) == MPT_PARSEFLAG(Option) && r > 0) V_ASSERT(p.len > 0, "a section or option event carries a path element");
-#else
+#endif
+#if MODE >= 2
 	V_ASSERT(r == (vl ? (MPT_PARSEFLAG(Option) | MPT_PARSEFLAG(Data)) : MPT_PARSEFLAG(Option)), "an option line is reported as an option (with data iff a value is present)");
 	if (r > 0) {
 		const uint8_t *el = SBDATA + p.off, *post = SBDATA + p.off + p.len;
